@@ -4,11 +4,132 @@
 package c07
 
 import (
+	"fmt"
+
 	"git.sr.ht/~rockorager/vaxis"
 
 	"verif/harness/drivers/c01"
+	"verif/harness/responder"
+	"verif/harness/sess"
+	"verif/harness/termcmd"
 	"verif/harness/trace"
 )
+
+// Scn is a C07 session: a c01 scenario plus two things that leave what the terminal advertises untouched and
+// therefore must leave what Vaxis establishes untouched: the size of the application's event queue
+// (Options.EventQueueSize, a public option; 0 = the library's default) and the letter case of the hexadecimal
+// digits in the terminal's XTGETTCAP / tertiary-DA replies (0 upper, 1 lower, 2 mixed).
+type Scn struct {
+	c01.Scn
+	Queue int `json:",omitempty"`
+	Hex   int `json:",omitempty"`
+}
+
+// Plain wraps a c01 scenario (default queue, upper-case hex): executed by the c01 executor itself.
+func Plain(sc *c01.Scn) *Scn { return &Scn{Scn: *sc} }
+
+// QueueSession: Session on an application with an event queue of q entries.
+func QueueSession(mask int, alt bool, variant, q int, termID string) *Scn {
+	sc := Plain(Session(mask, alt, variant))
+	sc.Kind, sc.Queue, sc.TermID = "caps-queue", q, termID
+	return sc
+}
+
+// HexSession: Session on a terminal writing hexadecimal strings in the given case.
+func HexSession(mask int, alt bool, variant, hexcase int) *Scn {
+	sc := Plain(Session(mask, alt, variant))
+	sc.Kind, sc.Hex = "caps-hex", hexcase
+	return sc
+}
+
+// Run executes a session. Sessions without the C07 extras go through the c01 executor unchanged; the others
+// through the same steps with the extra option / reply form (cells, cursor, render/refresh frames, Close).
+func Run(ctx *c01.Ctx, sc *Scn) (evs []trace.Ev, note string) {
+	if sc.Queue == 0 && sc.Hex == 0 {
+		return c01.Run(ctx, &sc.Scn)
+	}
+	caps := responder.FromMask(sc.Mask, sc.Alt)
+	caps.XTVersion, caps.DA1Class, caps.HexCase = sc.TermID, sc.DA1Class, sc.Hex
+	s, err := sess.Start(sess.Config{Caps: caps, Cols: sc.Cols, Rows: sc.Rows, Opts: vaxis.Options{EventQueueSize: sc.Queue}})
+	if err != nil {
+		return nil, "start: " + err.Error()
+	}
+	vx := s.Vx
+	defer func() {
+		if r := recover(); r != nil {
+			note = fmt.Sprintf("panic: %v", r)
+			evs = append(evs, trace.Ev{"ev": "panic"})
+		}
+	}()
+	cv := termcmd.NewConv(ctx.G, ctx.L, caps.UnicodeCore, caps.ExplicitWidth)
+	adv := []string{}
+	for i, n := range responder.Names {
+		if sc.Mask&(1<<i) != 0 {
+			adv = append(adv, n)
+		}
+	}
+	evs = append(evs, trace.Ev{"ev": "reset", "rows": sc.Rows, "cols": sc.Cols, "xw": caps.ExplicitWidth, "adv": adv})
+	evs = append(evs, cv.Feed(s.Startup)...)
+	evs = append(evs, trace.Ev{"ev": "ready", "can": map[string]bool{
+		"rgb": vx.CanRGB(), "kittyGraphics": vx.CanKittyGraphics(), "sixel": vx.CanSixel(), "color": vx.CanReportColor(),
+		"fg": vx.CanReportForegroundColor(), "bg": vx.CanReportBackgroundColor(), "graphics": vx.CanDisplayGraphics(),
+		"appid": vx.CanSetAppID(), "unicodeCore": vx.CanUnicodeCore(), "explicitWidth": vx.CanExplicitWidth()}})
+	want := make([][]c01.CellD, sc.Rows)
+	for r := range want {
+		want[r] = make([]c01.CellD, sc.Cols)
+	}
+	cur := []int{0, 0, 0, 0}
+	for _, f := range sc.Frames {
+		win := vx.Window()
+		for _, op := range f.Ops {
+			switch op.K {
+			case "set":
+				win.SetCell(op.C, op.R, op.Cell.V())
+				if op.C >= 0 && op.C < sc.Cols && op.R >= 0 && op.R < sc.Rows {
+					want[op.R][op.C] = *op.Cell
+				}
+			case "show":
+				vx.ShowCursor(op.C, op.R, vaxis.CursorStyle(op.Shape))
+				cur = []int{1, op.R + 1, op.C + 1, op.Shape}
+			case "hide":
+				vx.HideCursor()
+				cur = []int{0, 0, 0, 0}
+			default:
+				return nil, "c07 executor: unsupported op " + op.K
+			}
+		}
+		if f.End == "refresh" {
+			evs = append(evs, trace.Ev{"ev": "scramble"})
+			vx.Refresh()
+		} else {
+			vx.Render()
+		}
+		evs = append(evs, cv.Feed(s.Con.Take())...)
+		app := make([][][]int, sc.Rows)
+		for r := range want {
+			app[r] = make([][]int, sc.Cols)
+			for c := range want[r] {
+				app[r][c] = appCell(cv, ctx.L, want[r][c])
+			}
+		}
+		// rgb / su: which fallbacks the terminal's advertisement calls for (what it said, not what Vaxis made of it)
+		evs = append(evs, trace.Ev{"ev": "frame", "app": app, "cur": cur, "rgb": caps.RGB, "su": caps.Smulx || caps.VTE})
+	}
+	vx.Close()
+	evs = append(evs, cv.Feed(s.Con.Take())...)
+	return evs, ""
+}
+
+// appCell: one application cell as the tuple RefTerm.Intended expects.
+func appCell(cv *termcmd.Conv, l *trace.Interner, c c01.CellD) []int {
+	ln := 0
+	if c.S.Link != "" {
+		ln = l.ID(c.S.LinkP + ";" + c.S.Link)
+	}
+	v := c.S.V()
+	return []int{cv.G.ID(c.G), c.W, c01.ColInt(v.Foreground), c01.ColInt(v.Background), c01.ColInt(v.UnderlineColor),
+		int(c.S.Us), c01.AttrInt(v.Attribute), ln, cv.AppWidth(c.G)}
+}
 
 func st(fg, bg, ul vaxis.Color, us vaxis.UnderlineStyle, at vaxis.AttributeMask) c01.StyleD {
 	return c01.StyleD{Fg: uint32(fg), Bg: uint32(bg), Ul: uint32(ul), Us: uint8(us), At: uint8(at)}
